@@ -1,6 +1,7 @@
 import Proofs.Chain
 import Proofs.Liveness
 import Proofs.HistOK
+import Proofs.LivenessHeld
 import Pegnet.Generated.Facts
 /-
   C08 — Sync liveness. Two defects found by this check were repaired in /repo (known-findings.jsonl:
@@ -201,6 +202,33 @@ theorem harmless_tx_block_never_fails_after_any_chain (P : Params) (chain : List
   obtain ⟨s', h', _⟩ := harmless_tx_block_never_fails P h keymr es _ (history_consistent_along_every_chain P chain) he
   exact ⟨s', h'⟩
 
+/-! ### liveness of the execution of held batches -/
+
+/-- **Executing a held batch never fails the block**, whatever it holds — transfers, ordinary
+    conversions, PEG requests, mixed — funded or not, still valid at this height or not, on any
+    ledger: with the block's rates at hand (`hr`: the block is rated) the batch is applied, rejected
+    with a status (−1 funds, −2 invalid, −3 pFCT, −4 zero rate, −5 small assets), dropped (conversion
+    not computable), or skipped as a replay. (`hplain`: known asset and int64 amounts, from the
+    decoder; `hb`: the sender is not the burn address.) What CAN fail a bank-era block is the bank
+    pass that follows (`recordPegnetRequests` on a batch mixing a transfer with a PEG request): the
+    recorded finding of this property. -/
+theorem held_batch_execution_never_fails (P : Params) (h : Nat) (rates avgs : TMap) (hr : rates.isEmpty = false)
+    (e : TxEntry) (s : DB) (a : Addr) (hb : a ≠ burnAddrAt P h) (hall : ∀ t ∈ e.txs, t.inAddr = a)
+    (hplain : ∀ t ∈ e.txs, PlainTx P t) :
+    ∃ j s', applyHeld P h rates avgs e s = .ok j s' :=
+  applyHeld_total P h rates avgs hr e s a hb hall hplain
+
+/-- the batch level: with rates, `applyTransactionBatch` returns a verdict, never a block-failing error -/
+theorem batch_with_rates_never_fails (P : Params) (h : Nat) (e : TxEntry) (r : TMap) (hr : r.isEmpty = false)
+    (avgs : Option TMap) (s : DB) (a : Addr) (hb : a ≠ burnAddrAt P h) (hall : ∀ t ∈ e.txs, t.inAddr = a)
+    (hplain : ∀ t ∈ e.txs, PlainTx P t) :
+    ∃ v s', applyBatch P h e (some r) avgs s = .ok v s' :=
+  applyBatch_total P h e r hr avgs s a hb hall hplain
+
+/-- non-vacuity: an ordinary conversion meets `PlainTx` -/
+example : PlainTx wP { inAddr := "alice", inType := 2, inAmount := 100, transfers := [], conversion := 3 } :=
+  ⟨by decide, by decide, by decide, by decide⟩
+
 /-- non-vacuity: a two-output transfer with change meets `PlainTransfer` -/
 example : PlainTransfer wP { inAddr := "alice", inType := 2, inAmount := 100, transfers := [⟨"bob", 70⟩, ⟨"alice", 30⟩], conversion := 0 } :=
   ⟨by decide, by decide, by decide, by decide, by decide⟩
@@ -223,3 +251,5 @@ end Pegnet.C08
 #print axioms Pegnet.C08.conversion_entry_arrival_never_fails
 #print axioms Pegnet.C08.history_consistent_along_every_chain
 #print axioms Pegnet.C08.harmless_tx_block_never_fails_after_any_chain
+#print axioms Pegnet.C08.held_batch_execution_never_fails
+#print axioms Pegnet.C08.batch_with_rates_never_fails
